@@ -249,7 +249,7 @@ func stateWorld(c *RecvCase, o *sim.Outcome) (*Sess, [][]byte) {
 		}
 		return false
 	}
-	switch c.State % 10 {
+	switch c.State % 11 {
 	case 0:
 	case 1:
 		w.Query(0)
@@ -261,6 +261,17 @@ func stateWorld(c *RecvCase, o *sim.Outcome) (*Sess, [][]byte) {
 		s.DeliverQ(0, 0)
 		take()
 		s.DeliverQ(1, 0)
+	case 10: // both sides started at once: A has sent its commit and then meets B's
+		w.Query(0)
+		w.Query(1)
+		s.DeliverQ(0, 0)
+		s.DeliverQ(1, 0)
+		take()
+		s.DeliverQ(1, 0)
+		for i := 0; i < c.B%3 && len(w.Q[1]) > 0; i++ {
+			take()
+			s.DeliverQ(1, 0)
+		}
 	case 4: // A sent reveal-signature
 		w.Query(1)
 		s.DeliverQ(1, 0)
@@ -269,7 +280,7 @@ func stateWorld(c *RecvCase, o *sim.Outcome) (*Sess, [][]byte) {
 		s.DeliverQ(1, 0)
 	default:
 		s.Handshake(c.Cfg.Starter)
-		switch c.State % 10 {
+		switch c.State % 11 {
 		case 6:
 			s.Exec(SOp{K: "pp", W: 0, I: 2, L: 10})
 		case 7:
@@ -310,7 +321,7 @@ func hostileInput(c *RecvCase, pool [][]byte, s *Sess) []byte {
 		}
 		return append([]byte{}, pool[c.A%len(pool)]...)
 	}
-	switch c.Kind % 12 {
+	switch c.Kind % 13 {
 	case 0:
 		return c.Raw
 	case 1: // garbage behind each prefix
@@ -370,6 +381,38 @@ func hostileInput(c *RecvCase, pool [][]byte, s *Sess) []byte {
 		forms := []string{"?OTR:.", "?OTR:=.", "?OTR:A.", "?OTR:AA==.", "?OTR:AAM=.", "?OTR:AAMD.", "?OTR:AAMDAA==", "?OTR:AAMD\n.", "?OTR:" + strings.Repeat("A", c.B%5000) + "."}
 		return []byte(forms[c.A%len(forms)])
 	}
+	if c.Kind%13 == 12 {
+		// a well-formed key-exchange message of some other exchange (same long-term keys, other randomness), addressed
+		// correctly: nothing in it is malformed, it just does not belong here
+		rc := c.Cfg
+		rc.SeedA, rc.SeedB, rc.SkA, rc.SkB = c.Cfg.SeedA+777770, c.Cfg.SeedB+777770, 0, 0
+		rec := newSess(&SessScript{Cfg: rc}, &sim.Outcome{})
+		rec.Handshake(c.A & 1)
+		var ake [][]byte
+		for _, wr := range rec.W.Log {
+			if _, raw, ok := isAKEWire(wr.Data); ok && wr.From == 1 {
+				raw = append([]byte{}, raw...)
+				if len(raw) > 11 && raw[1] == 3 && s != nil {
+					bound := s.W.P[0].C.GetTheirInstanceTag()
+					st := bound
+					if st == 0 {
+						// (a conversation that knows no peer instance yet may bind to whoever writes first: it is the
+						// genuine peer's instance that writes, so that the probe afterwards talks to the bound instance)
+						st = s.W.P[1].C.GetOurInstanceTag()
+					} else if c.B%2 == 1 {
+						st = 0x5151 + uint32(c.B)
+					}
+					copy(raw[3:], ref.PutU32(nil, st))
+					copy(raw[7:], ref.PutU32(nil, s.W.P[0].C.GetOurInstanceTag()))
+				}
+				ake = append(ake, ref.Armor(raw))
+			}
+		}
+		if len(ake) == 0 {
+			return []byte("?OTR:AAMDAAAA.")
+		}
+		return ake[(c.A/2)%len(ake)]
+	}
 	// 11: long garbage
 	return bytes.Repeat([]byte{byte(c.A)}, c.B%70000)
 }
@@ -387,8 +430,8 @@ func runRecv(c *RecvCase) *sim.Outcome {
 		}
 		return o
 	}
-	o.Class(fmt.Sprintf("state%d", c.State%10))
-	o.Class(fmt.Sprintf("kind%d", c.Kind%12))
+	o.Class(fmt.Sprintf("state%d", c.State%11))
+	o.Class(fmt.Sprintf("kind%d", c.Kind%13))
 	if k := ref.Classify(in); k != ref.KPlain && k != ref.KTagged {
 		o.NonTrivial = true
 	}
@@ -489,11 +532,11 @@ func TestProp_C13_Receive(t *testing.T) {
 	defer sim.MarkCompleted("C13receive", false)
 	defer sim.ClearCrumb()
 	rapid.Check(t, func(rt *rapid.T) {
-		c := &RecvCase{Cfg: genSessCfg(rt), PolA: rapid.IntRange(0, 63).Draw(rt, "pol"), State: rapid.IntRange(0, 9).Draw(rt, "state"),
-			NoKey: rapid.IntRange(0, 7).Draw(rt, "nokey") == 0, Kind: rapid.IntRange(0, 11).Draw(rt, "kind"),
+		c := &RecvCase{Cfg: genSessCfg(rt), PolA: rapid.IntRange(0, 63).Draw(rt, "pol"), State: rapid.IntRange(0, 10).Draw(rt, "state"),
+			NoKey: rapid.IntRange(0, 7).Draw(rt, "nokey") == 0, Kind: rapid.IntRange(0, 12).Draw(rt, "kind"),
 			A: genBig(rt, "a"), B: genBig(rt, "b")}
 		c.Cfg.FragA, c.Cfg.FragB = 0, 0
-		if c.Kind%12 <= 1 || c.Kind%12 == 7 {
+		if c.Kind%13 <= 1 || c.Kind%13 == 7 {
 			c.Raw = rapid.SliceOfN(rapid.Byte(), 0, 80).Draw(rt, "raw")
 		}
 		sim.Judge(rt, "C13receive", c)
